@@ -1,5 +1,5 @@
 """Registry: property id -> rule set, level and explanations."""
-from . import p_symbols, p_rs, p_charset, p_modes, p_macro, p_plan, p_codec, p_wire, p_bitmap, p_place
+from . import p_symbols, p_rs, p_charset, p_modes, p_macro, p_plan, p_codec, p_wire, p_bitmap, p_place, p_panic
 
 PROPS = {}
 
@@ -36,7 +36,8 @@ PROPS["C06"] = {
 
 PROPS["C15"] = {
     "level": "other",
-    "rules": [p_charset.tab_iso, p_charset.tab_dispatch, p_charset.tab_eci],
+    "rules": [p_charset.tab_iso, p_charset.tab_dispatch, p_charset.tab_eci,
+              p_panic.residue_rule("decode", owner_filter=lambda o: o.startswith("decodation::eci::") or o == "decodation::read_eci", rule="RESIDUE-ECI")],
     "explanation": "Decided in full: the ISO-8859-9/-11 per-byte decision tables composed with the table constants equal the "
                    "standard mappings for all 256 byte values (control/undefined bytes give CharsetError, no index can leave the "
                    "table); the ECI dispatch maps 0/3, 11, 13, 26, 27 to the right decoder and passes 26/27 bytes through unchanged. "
@@ -194,8 +195,17 @@ PROPS["C01"] = {
 
 PROPS["C11"] = {
     "level": "other",
-    "rules": [p_wire.dom_errcls, p_wire.gate_hint, p_macro.dom_macro, p_plan.sync, p_charset.tab_eci],
-    "explanation": "(Engine B part added below)",
+    "engine": "dmx-facts + panic-residue",
+    "rules": [p_wire.dom_errcls, p_wire.gate_hint, p_macro.dom_macro, p_plan.sync, p_charset.tab_eci, p_panic.residue_rule("encode"), p_panic.invariants],
+    "explanation": "Clause-level claim. Decided: DOM-ERRCLS - the error is SymbolListEmpty iff the list is empty (its only constructions are "
+                   "on the true edge of symbol_list.is_empty(), which is tested first, and in the reservation-hint wrapper, which GATE-HINT "
+                   "shows is Some for every non-empty list); DOM-MACRO - the macro re-slice cannot panic for short envelopes; SYNC - planner "
+                   "and encoder count the same characters (the defect that made 13% of inputs panic with ASCII disabled); ECI domain - "
+                   "write_eci's arms cover 0..=999999; RESIDUE (encode scope) - no panic site beyond the reviewed ledger: every other "
+                   "potential site is deleted by the optimiser as unreachable. The dozen planner/encoder agreement assertions "
+                   "(maybe_switch_mode, no-progress counter, x12 unreachable!, EDIFACT space_left, Base256 length) are ledger class "
+                   "not-decided - their unreachability IS property C18's undecided core - and are reported as UNDECIDED, as is "
+                   "termination of the encode loop (bounded by the no-progress assertion).",
     "assumptions": ["default cargo features"],
     "technique": "MIR dominance + provenance rules; LLVM panic-residue census",
 }
@@ -243,6 +253,29 @@ PROPS["C07"] = {
                    "reference algorithm, which is trusted).",
     "assumptions": ["default cargo features", "the reference program of Annex F.3 as transcribed in rules/p_place.py"],
     "technique": "source-level equivalence with the standard's reference program after canonicalisation (polynomial normal form)",
+}
+
+PROPS["C05"] = {
+    "level": "other",
+    "engine": "panic-residue + dmx-facts",
+    "rules": [p_panic.residue_rule("decode"), p_panic.invariants, p_panic.div_guard, p_rs.gather_scatter, p_bitmap.dom_bitmap,
+              p_panic.t_alt, p_panic.t_loops, p_codec.dec_mode, p_charset.tab_eci, p_charset.tab_iso],
+    "explanation": "Decided per site; undecided sites are listed, never counted as proved. Panic part: the crate is compiled to LLVM IR "
+                   "at opt-level 3 with overflow checks and debug assertions ON; every arithmetic overflow, bounds check, division by "
+                   "zero, unwrap and assertion is then a call to a noreturn function, and the optimiser deletes those it proves dead. "
+                   "The residue in the decode scope (functions reachable from the six decoding entry points in the MIR call graph) is "
+                   "attributed through core::panic::Location constants and must stay within the reviewed ledger (keyed by function and "
+                   "kind, never by line): a new unproved site - or one that was provable until a guard was dropped - is a violation. "
+                   "Ledger classes: table-invariant (re-checked here: INV), counter<=len, quotient-remainder, reviewed (one reason each), "
+                   "precondition (codeword vector of the symbol's length), std-internal, alloc-failure, and not-decided (Reed-Solomon "
+                   "index algebra, Annex F index validity) which are reported as UNDECIDED. DIV-GUARD classifies every GF division's "
+                   "divisor (GF::div's zero assertion is shared by all callers); the decision tables of read_eci / ISO-8859-9/-11 are "
+                   "folded over all inputs and any trap is reported. Termination part: T-ALT (decode_ascii consumes >= 1 codeword, every "
+                   "other decoder returns to ASCII, the reader only shrinks) and T-LOOPS (every loop in the scope is iterator-bounded, "
+                   "reader-consuming, or has a reviewed variant). NOT decided: the ~100 not-decided sites, stack/heap exhaustion.",
+    "assumptions": ["default cargo features", "rustc/LLVM only delete checks they prove dead (soundness of the optimiser)",
+                    "release builds contain a subset of these checks", "error correction is called with a codeword vector of the symbol's length (the property's own precondition)"],
+    "technique": "compiler-proved dead-check elimination (LLVM IR residue) + reviewed ledger + MIR/THIR dominance and loop rules",
 }
 
 NOT_APPLICABLE = {
